@@ -939,6 +939,26 @@ pub fn run(cx: &mut Ctx, _replay: Option<&str>) {
         case_dec(cx, &b);
     }
 
+    {
+        // very long runs of maximal option deltas: the running option number passes 65535 at the second
+        // option and would pass 2^32 after 65270 of them – rejected either way, never a panic or a wrap
+        for n in [2usize, 245, 65269, 65270, 65271, 70000] {
+            let mut b = unhex("40010000");
+            for _ in 0..n {
+                b.extend_from_slice(&[0xe0, 0xff, 0xff]);
+            }
+            case_dec(cx, &b);
+        }
+        // the same with 13-class deltas (268 each) and with values in between
+        for n in [244usize, 245, 246, 4000] {
+            let mut b = unhex("40010000");
+            for _ in 0..n {
+                b.extend_from_slice(&[0xd1, 0xff, 0x2a]);
+            }
+            case_dec(cx, &b);
+        }
+    }
+
     // ---- 1. boundary product: <= 2 options (3 in thorough on a subset)
     let toks: [usize; 3] = [0, 1, 8];
     let pays: [usize; 3] = [0, 1, 300];
